@@ -59,6 +59,8 @@ type monState struct {
 	lastSeen     map[string]*JobSnap // last API report of every job ever seen
 	snapAtSave   map[int]*Snap       // handed-save index -> API snapshot at the instant the snapshot was built
 	lastChangeAt time.Duration       // fake time of the last step that changed the reported state
+	stableChecked int                // completed saves already checked by checkSavedDataStable
+	initialLoaded string             // canonical form of the snapshot the current world started from
 }
 
 func newMonState(run *Run) *monState {
@@ -66,22 +68,15 @@ func newMonState(run *Run) *monState {
 		startStep: map[string]int{}, startAt: map[string]time.Duration{}, defChanged: map[string]int{},
 		removed: map[string]int{}, firstFail: map[string]int{}, taskOrderByDef: map[string]string{},
 		worldOfJob: map[string]int{}, forcedCancel: map[string]bool{}, undefinedAt: map[string]int{},
-		lastSeen: map[string]*JobSnap{}, snapAtSave: map[int]*Snap{}}
+		lastSeen: map[string]*JobSnap{}, snapAtSave: map[int]*Snap{}, initialLoaded: "[]"}
 }
 
 func (m *monState) pipelineOf(job string) string {
 	if a := m.acc[job]; a != nil {
 		return a.Pipeline
 	}
-	// accepted in this very step: look at the live snapshot
 	if m.run.pre != nil {
 		if j := m.run.pre.Jobs[job]; j != nil {
-			return j.Pipeline
-		}
-	}
-	if m.run.cur != nil {
-		s := m.run.snapshot(m.run.cur)
-		if j := s.Jobs[job]; j != nil {
 			return j.Pipeline
 		}
 	}
@@ -126,7 +121,7 @@ func (m *monState) exitOf(job, task string) (string, bool) {
 	return "", false
 }
 
-func okExit(arg string) bool { return arg == "ok" || arg == "fail-allowed" }
+func okExit(arg string) bool { return arg == "ok" || arg == "fail-allowed" || arg == "ioerr-allowed" }
 
 // defUnchangedSince reports whether the pipeline's definition content did not change after step.
 func (m *monState) defUnchangedSince(pipeline string, step int) bool {
@@ -206,9 +201,10 @@ func (m *monState) onStep(si *StepInfo, pre, post *Snap, evs []Event) {
 			run.violate("C13", "r9", "read-only operation %s changed the reported state", si.Name)
 		}
 	}
-	if si.Point == "SaveToStore" {
+	if isSavePoint(si.Point) {
 		m.checkSaveStep(si, pre, post, evs)
 	}
+	m.checkSavedDataStable(si)
 	if si.Point == "Shutdown.begin" {
 		m.shutdownJobsRunningAtBegin = map[string]bool{}
 		for n, j := range pre.Jobs {
@@ -833,7 +829,7 @@ func (m *monState) checkInvariants(si *StepInfo, pre, post *Snap) {
 		}
 		j := post.Jobs[name]
 		if j == nil {
-			if si.Point == "SaveToStore" {
+			if isSavePoint(si.Point) {
 				m.removed[name] = si.N
 				continue
 			}
@@ -874,6 +870,7 @@ func (m *monState) checkInvariants(si *StepInfo, pre, post *Snap) {
 		}
 		if p.Replace && len(waiting) > 1 {
 			run.violate("C05", "r4", "step %d (%s): %d jobs of pipeline %s are waiting under queue_strategy replace", si.N, si.Name, len(waiting), p.Name)
+			run.violate("C07", "r4", "step %d (%s): under queue_strategy replace %d jobs of pipeline %s are waiting (%s is older than the most recently accepted one and was not displaced)", si.N, si.Name, len(waiting), p.Name, waiting[0].Name)
 		}
 	}
 	// C15 r5: task order depends only on the definition, dependencies first
@@ -995,6 +992,9 @@ func (m *monState) onEnd() {
 						okc++
 					}
 				}
+				if arg, _ := m.exitOf(name, t.Name); arg == "ioerr-allowed" && n == 0 && okc == 1 {
+					continue // failed with allow_failure before its first command
+				}
 				if n != 1 || okc != 1 {
 					run.violate("C08", "r4", "job %s is reported completed without error but task %s ran %d times and finished successfully %d times", name, t.Name, n, okc)
 					run.violate("C02", "r3", "job %s is reported completed without error but task %s ran %d times and finished successfully %d times", name, t.Name, n, okc)
@@ -1099,7 +1099,7 @@ func (m *monState) checkFailureOutcome(name string, j *JobSnap, a *acceptInfo) {
 				if m.hasBadAncestor(j, t.Name, map[string]bool{}) {
 					continue
 				}
-				if len(m.eventsFor(name, "run-enter", t.Name)) == 0 {
+				if len(m.eventsFor(name, "run-enter", t.Name)) == 0 && len(m.eventsFor(name, "run-exit", t.Name)) == 0 {
 					run.violate("C08", "r3", "job %s has continue_running_tasks_after_failure, task %s does not depend on a failed task but never ran", name, t.Name)
 				}
 			}
@@ -1155,4 +1155,11 @@ func sortedJobNames(m map[string]*JobSnap) []string {
 	}
 	sort.Strings(ks)
 	return ks
+}
+
+
+// isSavePoint: hook points of SaveToStore at or after which its removal phase runs
+// (the committed hook at its top, and the automatically inserted one before its lock).
+func isSavePoint(point string) bool {
+	return point == "SaveToStore" || strings.HasPrefix(point, "auto.") && strings.Contains(point, ":SaveToStore#")
 }
